@@ -364,11 +364,17 @@ func body(c cfg) func() {
 			if err := conn.Close(); err != nil {
 				w.fails = append(w.fails, fmt.Sprintf("close-not-idempotent|a second Close returned %v", err))
 			}
-			if _, err := conn.Write([]byte{1}); err == nil {
-				w.fails = append(w.fails, "op-after-close|Write succeeded on a closed connection")
+			// every argument shape, the degenerate ones included: "nothing to send" is not a
+			// reason to skip the closed indication
+			for _, b := range [][]byte{{1}, nil, {}, {1, 2, 3}} {
+				if _, err := conn.Write(b); err == nil {
+					w.fails = append(w.fails, fmt.Sprintf("op-after-close|Write of %d bytes (nil=%v) succeeded on a closed connection", len(b), b == nil))
+				}
 			}
-			if _, err := conn.Writev([][]byte{{1}, {2}}); err == nil {
-				w.fails = append(w.fails, "op-after-close|Writev succeeded on a closed connection")
+			for _, v := range [][][]byte{{{1}, {2}}, nil, {}, {{}}, {nil}, {{}, {}}, {{1}}, {{}, {1}}} {
+				if _, err := conn.Writev(v); err == nil {
+					w.fails = append(w.fails, fmt.Sprintf("op-after-close|Writev of %d buffers (%v) succeeded on a closed connection", len(v), v))
+				}
 			}
 			if c.origin != "udp" && c.origin != "udp-dial" {
 				if _, err := conn.Sendfile(ekit.OpenDataFile(1, 4, 0), 0); err == nil {
